@@ -8,6 +8,7 @@ import (
 	"database/sql"
 	"errors"
 	"fmt"
+	"github.com/jackc/pgx/v5/pgconn"
 	"io"
 	"log/slog"
 	"net"
@@ -106,7 +107,9 @@ type Wrap struct {
 }
 
 // Causes are standard-library errors a real handler's failure plausibly is or wraps (index 0: none).
-var Causes = []error{nil, io.EOF, io.ErrUnexpectedEOF, net.ErrClosed, context.Canceled, context.DeadlineExceeded, os.ErrDeadlineExceeded, sql.ErrNoRows}
+var Causes = []error{nil, io.EOF, io.ErrUnexpectedEOF, net.ErrClosed, context.Canceled, context.DeadlineExceeded, os.ErrDeadlineExceeded, sql.ErrNoRows,
+	// what a handler that forwards queries to a PostgreSQL server gets back from its driver
+	&pgconn.PgError{Severity: "FATAL", Code: "57P01", Message: "terminating connection due to administrator command", Detail: "upstream detail", Hint: "upstream hint", ConstraintName: "upstream_pkey", File: "postgres.c", Line: 3000, Routine: "ProcessInterrupts"}}
 
 type ErrSpec struct {
 	Base  string
@@ -229,17 +232,19 @@ type Op struct {
 	Tag  string
 	Err  *ErrSpec
 	Copy *CopyPlan
+	Fn   func() // K "call": something the handler does besides writing results
 }
 
 // CopyPlan scripts a COPY-in handler.
 type CopyPlan struct {
-	Format   wire.FormatCode
-	MaxReads int    // stop after this many successful chunk reads (<0: until error/EOF)
-	OnErr    string // "propagate" | "own" | "complete"
-	OnStop   string // what to do when stopping early: "own" error | "complete"
-	Binary   bool   // decode rows through the library's binary row reader
-	OwnErr   int    // index into OwnErrs for the handler's own error
-	RowCtx   bool   // every Read of the binary row reader gets a context of its own, which the client side may cancel while the Read waits (Sess.CancelRead); a Read that fails with that context's error is simply repeated
+	Format     wire.FormatCode
+	MaxReads   int    // stop after this many successful chunk reads (<0: until error/EOF)
+	OnErr      string // "propagate" | "own" | "complete"
+	OnStop     string // what to do when stopping early: "own" error | "complete"
+	Binary     bool   // decode rows through the library's binary row reader
+	OwnErr     int    // index into OwnErrs for the handler's own error
+	NoComplete bool   // at the end of the stream the handler does not complete the result: it goes on (another CopyIn, rows)
+	RowCtx     bool   // every Read of the binary row reader gets a context of its own, which the client side may cancel while the Read waits (Sess.CancelRead); a Read that fails with that context's error is simply repeated
 }
 
 type Stmt struct {
@@ -455,6 +460,8 @@ func runStmt(ctx context.Context, s *Sess, st *Stmt, w wire.DataWriter, params [
 		case "empty":
 			err = w.Empty()
 		case "written":
+		case "call":
+			op.Fn()
 		case "err":
 			r.W1 = r.W0
 			r.Written = w.Written()
@@ -557,6 +564,9 @@ func runCopy(ctx context.Context, c *tr.Conn, st *Stmt, w wire.DataWriter, plan 
 		}
 		c.CB("copyread", rec)
 		if err == io.EOF {
+			if plan.NoComplete {
+				return nil
+			}
 			return w.Complete(fmt.Sprintf("COPY %d", n))
 		}
 		if err != nil {
